@@ -3,13 +3,15 @@ import os
 import core, gen, gen_units as G, canon, refs
 from core import hx, unhx
 
-LEAN_MODULE = 'QM.Props.C08'
+LEAN_MODULE = 'QM.Props.C08Names'
 THEOREMS = ['Refine.C08_process_refines', 'Refine.C09_members_order_free', 'Refine.C09_members_exact', 'Refine.C10_independent',
             'Cv.C08_image_reference', 'Cv.C08_image_reference_missing', 'Cv.C08_network_reference', 'Cv.C08_network_reference_missing',
             'Cv.C08_pod_reference', 'Cv.C08_pod_reference_missing', 'Cv.C08_pod_reference_not_a_pod', 'Cv.C08_volume_name_consistent',
             'Cv.C08_network_publishes_what_it_creates', 'Cv.C08_image_publishes_what_it_creates',
             'Cv.C08_process_concrete', 'Cv.C08_processUnits', 'Cv.C08_order_irrelevant', 'Cv.sys_local', 'Cv.convOut_congr', 'Cv.linkOf_congr', 'Cv.reads_lower', 'Cv.link_higher',
-            'Cv.C08_priorities', 'Cv.C08_service_suffixes', 'Conform.sorting_priority', 'Conform.service_suffix']
+            'Cv.C08_priorities', 'Cv.C08_service_suffixes', 'Conform.sorting_priority', 'Conform.service_suffix',
+            'Cv.fin_of_mem', 'Cv.C08_table_service', 'Cv.C08_table_missing', 'Cv.C08_table_volume', 'Cv.C08_volume_published_name', 'Cv.C08_table_network', 'Cv.C08_table_image',
+            'Cv.C08_table_build', 'Cv.C08_table_container']
 ASSUMPTIONS = [
     'Refine.* is proved for every system satisfying Refine.Local; Cv.sys_local proves Local for the concrete loop model Cv.sys (the model that answers the convert op): every converter model reads the name table only at its static read set (congruence lemmas for all handlers and the seven converters), whatever it reads is published by a strictly lower priority or never rewritten, a container links only to a .pod, which sorts later. Hypothesis kept: the units have supported extensions (Loadable — what is_extension_supported guarantees at discovery) and distinct file names (first-seen-wins, C13)',
     'the concrete loop model is tied to the code by the convert correspondence on generated unit sets in sorted *and* unsorted orders (Refine.step of Cv.sys is what the driver executes); the converters\' use of the table is therefore modelled, not verified in Rust',
